@@ -473,6 +473,8 @@ const ESCAPES: [(&str, &str); 30] = [
     ("r", "r"),
 ];
 
+const LONE_SURROGATES: [&str; 7] = ["\\ud800", "\\udc00", "\\udfff", "\\ud800x", "x\\udbff", "\\udc00\\ud800", "\\ud800\\u0041"];
+
 impl Family for Literals {
     fn name(&self) -> &'static str {
         "literals"
@@ -481,7 +483,7 @@ impl Family for Literals {
         &["C11"]
     }
     fn rule(&self) -> &'static str {
-        "string literal spellings: every escape the lexer accepts, and 7 pieces of plain text that read like the tail of an escape (u0041, n, t, ...), alone and in every ordered pair; multi-line strings of 2-3 lines over {empty, quote, backslash, spaces, non-ASCII}, each also in a file with CR LF line ends (as are the single escapes); the AST value and the text printed by the compiled program (through the Go model) must equal the denoted characters; distinct = distinct literal spellings"
+        "string literal spellings: every escape the lexer accepts, and 7 pieces of plain text that read like the tail of an escape (u0041, n, t, ...), alone and in every ordered pair; multi-line strings of 2-3 lines over {empty, quote, backslash, spaces, non-ASCII}, each also in a file with CR LF line ends (as are the single escapes); 7 spellings of half a surrogate pair (alone, next to other characters, the two halves in the wrong order) as an expression and as a pattern must be rejected; the AST value and the text printed by the compiled program (through the Go model) must equal the denoted characters; distinct = distinct literal spellings"
     }
     fn cases(&self, _tier: Tier) -> Box<dyn Iterator<Item = Value> + '_> {
         let mut v = Vec::new();
@@ -491,6 +493,11 @@ impl Family for Literals {
             for j in 0..ESCAPES.len() {
                 v.push(json!({"kind": "str", "parts": [i, j]}));
             }
+        }
+        // escapes that denote no character: half of a surrogate pair (a string is a sequence of characters)
+        for lit in LONE_SURROGATES {
+            v.push(json!({"kind": "no-character", "lit": lit, "as": "expression"}));
+            v.push(json!({"kind": "no-character", "lit": lit, "as": "pattern"}));
         }
         let lines = ["", "\"q\"", "back\\slash", "  sp  ", "é😀", "plain"];
         for a in 0..lines.len() {
@@ -510,6 +517,34 @@ impl Family for Literals {
     }
     fn run(&self, case: &Value, ctx: &mut Ctx) -> Report {
         let mut rep = Report::default();
+        if case["kind"] == "no-character" {
+            let lit = case["lit"].as_str().unwrap();
+            let text = if case["as"] == "expression" {
+                format!("fn main() {{\n    let r = \"{}\";\n    string_println(r)\n}}\n", lit)
+            } else {
+                format!("fn main() {{\n    let r = match \"q\" {{ \"{}\" => 1, _ => 0 }};\n    string_println(int32_to_string(r))\n}}\n", lit)
+            };
+            rep.nontrivial_key = Some(text.clone());
+            let path = ctx.scratch.single_path();
+            match crate::oracle::compile_at(&path, &text) {
+                crate::oracle::CompileOutcome::Ok(_) => {
+                    rep.tag("no-character:accepted");
+                    rep.findings.push(Finding {
+                        property: "C11",
+                        class: "literal.no-character-accepted".into(),
+                        site: format!("lone-surrogate;as={}", case["as"].as_str().unwrap()),
+                        detail: format!("the escape in \"{}\" is half of a surrogate pair and denotes no character, but the program was accepted", lit),
+                        replay: json!({"kind": "text", "text": text, "oracle": "must-reject"}),
+                    });
+                }
+                crate::oracle::CompileOutcome::Err(_) => rep.tag("no-character:rejected"),
+                crate::oracle::CompileOutcome::Panic(m) => {
+                    let m = normalise_msg(&m);
+                    rep.findings.push(Finding { property: "C11", class: "compile.panic".into(), site: format!("lone-surrogate;msg={}", m), detail: m, replay: json!({"kind": "text", "text": text, "oracle": "total"}) });
+                }
+            }
+            return rep;
+        }
         let (lit, denoted, site): (String, String, String) = if case["kind"] == "str" {
             let parts: Vec<usize> = case["parts"].as_array().unwrap().iter().map(|x| x.as_u64().unwrap() as usize).collect();
             let sp: String = parts.iter().map(|i| ESCAPES[*i].0).collect();
